@@ -51,12 +51,12 @@ NOT_APPLICABLE = {}
 
 PROPS["C02"] = {
     "level": "model_checking",
-    "harness": ["C02_"],
+    "harness": ["C02_", "C03_Lemma"],
     "tiers": {
-        "quick": {"timeout": "20s", "maxsteps": 8000000, "casecap": 1100, "bounds": "encoding lemmas: all 42 opcodes x full operand ranges (8/16/32 bit); VM decoders: 4 jump opcodes x all 2^32 targets, OpConstant/OpGetGlobal/OpSetGlobal/OpGetLocal x full index range; monitor: 44 catalog programs, int inputs a,b (full int64, or -1..3 where they bound a loop), bool c. Generated grammar family (gen.go): every statement sequence of <= 2 nodes from 10 atoms (r += x, x = y + 1, y++, m.k += x, block-scoped declaration, immediately-invoked closure reading a captured variable, closure writing a captured variable, break, continue, return) and 8 wrappers (if, if-else, if with init, 3-clause for, for-in, condition-only for, endless for with break, function literal + call), plus every nesting W(W'(atom)), rendered in 4 variable-placement contexts (top level: globals; function body: parameters/locals; closure: captured parameter/locals; loop inside a function) - 1029 programs, inputs a, b full int64 and c bool symbolic: static verifier + VM monitor on each", "cross": 1},
+        "quick": {"timeout": "20s", "maxsteps": 8000000, "casecap": 1100, "bounds": "encoding lemmas: all 42 opcodes x full operand ranges (8/16/32 bit); VM decoders: 4 jump opcodes x all 2^32 targets, OpConstant/OpGetGlobal/OpSetGlobal/OpGetLocal x full index range; monitor: 44 catalog programs, int inputs a,b (full int64, or -1..3 where they bound a loop), bool c. Generated grammar family (gen.go): every statement sequence of <= 2 nodes from 10 atoms (r += x, x = y + 1, y++, m.k += x, block-scoped declaration, immediately-invoked closure reading a captured variable, closure writing a captured variable, break, continue, return) and 8 wrappers (if, if-else, if with init, 3-clause for, for-in, condition-only for, endless for with break, function literal + call), plus every nesting W(W'(atom)), rendered in 4 variable-placement contexts (top level: globals; function body: parameters/locals; closure: captured parameter/locals; loop inside a function) - 1029 programs, inputs a, b full int64 and c bool symbolic: static verifier + VM monitor on each; the optimizer lemma of C03 (arbitrary streams of 2..3 instructions with symbolic operand bytes) for the clause 'every path ends in a return'", "cross": 1},
         "thorough": {"timeout": "60s", "maxsteps": 8000000, "casecap": 1100, "bounds": "as quick (the catalog and operand ranges are the bound). Generated grammar family (gen.go): every statement sequence of <= 3 nodes (10 atoms, 8 wrappers) in 4 variable-placement contexts - 9262 programs, inputs a, b full int64 and c bool symbolic: static verifier + VM monitor on each", "cross": 2},
     },
-    "reach": {"C02_GenMonitor": ["genmonitor"], "C02_Encoding": ["enc"], "C02_DecodeJump": ["decjump"], "C02_DecodeIndex": ["decidx"], "C02_Monitor": ["monitor"]},
+    "reach": {"C02_GenMonitor": ["genmonitor"], "C02_Encoding": ["enc"], "C02_DecodeJump": ["decjump"], "C02_DecodeIndex": ["decidx"], "C02_Monitor": ["monitor"], "C03_Lemma": ["lemma"]},
     "assumptions": [
         "the static well-formedness pass (jump targets, operand ranges, one operand-stack height per instruction, every path ends in a return) is an ordinary Go function run by the engine on each compiled program: it has no symbolic input; the solver decides the encoding lemmas, the VM decoders and the dynamic monitor over all inputs",
         "stack effect of OpCall is taken as -(numArgs) also for spread calls (the VM replaces callee and arguments by one result)",
@@ -70,10 +70,10 @@ PROPS["C03"] = {
     "level": "translation_validation",
     "harness": ["C03_"],
     "tiers": {
-        "quick": {"timeout": "20s", "maxsteps": 8000000, "bounds": "twin compile (with / without dead-code elimination) of 12 dead-code programs + 44 catalog + 9 failing programs, inputs a,b int64 (or -1..3 where they bound loops), c bool: identical globals, identical error text incl. positions; optimizer lemma on arbitrary streams of 2..3 instructions from {TRUE,POP,RET 0/1,JMP,JMPF,ANDJMP,ORJMP,GETL} with jump targets case-split over every instruction boundary and the end. Generated grammar family (gen.go): every statement sequence of <= 2 nodes from 10 atoms (r += x, x = y + 1, y++, m.k += x, block-scoped declaration, immediately-invoked closure reading a captured variable, closure writing a captured variable, break, continue, return) and 8 wrappers (if, if-else, if with init, 3-clause for, for-in, condition-only for, endless for with break, function literal + call), plus every nesting W(W'(atom)), rendered in 4 variable-placement contexts (top level: globals; function body: parameters/locals; closure: captured parameter/locals; loop inside a function) - 1029 programs, inputs a, b full int64 and c bool symbolic: twin compile of each; twin compile of the generated failing programs (one failing statement - int + undefined, -map, for-in over an int, call of an int - at every atom position of every sequence of <= 2 nodes, every nesting W(W'(fail)), and directly after eliminated code W(exit; atom); fail), under both Go-map iteration orders the engine offers", "cross": 1},
+        "quick": {"timeout": "20s", "maxsteps": 8000000, "bounds": "twin compile (with / without dead-code elimination) of 12 dead-code programs + 44 catalog + 9 failing programs, inputs a,b int64 (or -1..3 where they bound loops), c bool: identical globals, identical error text incl. positions; optimizer lemma on arbitrary streams of 2..3 instructions from {TRUE,POP,RET 0/1,JMP,JMPF,ANDJMP,ORJMP,GETL} with jump targets case-split over every instruction boundary and the end. Generated grammar family (gen.go): every statement sequence of <= 2 nodes from 10 atoms (r += x, x = y + 1, y++, m.k += x, block-scoped declaration, immediately-invoked closure reading a captured variable, closure writing a captured variable, break, continue, return) and 8 wrappers (if, if-else, if with init, 3-clause for, for-in, condition-only for, endless for with break, function literal + call), plus every nesting W(W'(atom)), rendered in 4 variable-placement contexts (top level: globals; function body: parameters/locals; closure: captured parameter/locals; loop inside a function) - 1029 programs, inputs a, b full int64 and c bool symbolic: twin compile of each; twin compile of the generated failing programs (one failing statement - int + undefined, -map, for-in over an int, call of an int - at every atom position of every sequence of <= 2 nodes, every nesting W(W'(fail)), and directly after eliminated code W(exit; atom); fail), under both Go-map iteration orders the engine offers; decode/re-encode lemma of iterateInstructions: all 42 opcodes x full operand ranges; optimizer lemma with symbolic operand bytes of GETL/BINARYOP (8 bit), CONST (16 bit), CALL (2 x 8 bit)", "cross": 1},
         "thorough": {"timeout": "60s", "maxsteps": 8000000, "bounds": "as quick; optimizer lemma on streams of 2..5 instructions. Generated grammar family (gen.go): every statement sequence of <= 3 nodes (10 atoms, 8 wrappers) in 4 variable-placement contexts - 9262 programs, inputs a, b full int64 and c bool symbolic: twin compile of each", "cross": 2},
     },
-    "reach": {"C03_TwinGen": ["twingen"], "C03_TwinFail": ["twinfail"], "C03_TwinDead": ["twin"], "C03_TwinCatalog": ["twincat"], "C03_Lemma": ["lemma"]},
+    "reach": {"C03_TwinGen": ["twingen"], "C03_TwinFail": ["twinfail"], "C03_Iterate": ["iterate"], "C03_TwinDead": ["twin"], "C03_TwinCatalog": ["twincat"], "C03_Lemma": ["lemma"]},
     "assumptions": [
         "the unoptimized twin is produced by an overlay of compiler.go generated from the current file (optimizeFunc renamed, a switch added that only appends the trailing return); if the anchor is missing the check reports itself broken",
         "in the lemma, jump targets are finite-domain choices, not wide variables: it is an exhaustive case split within the stream-length bound",
